@@ -899,10 +899,42 @@ class Ctx:
                             ax.append(z3.Implies(a1 < -o2, o1 < -a2))
         return ax
 
-    def solver(self, logic=None, timeout_ms=60000):
+    def relevant_side(self, formulas):
+        """definitional constraints (sqrt, atoms, floors) connected to the variables of the given formulas: a sqrt symbol that
+        the real code computed but that does not reach the claim must not turn a linear query into a non-linear one"""
+        if not hasattr(self, "_side_vars"):
+            self._side_vars = {}
+        need = set()
+        for f in formulas:
+            need |= _consts_of(f)
+        chosen, changed = [], True
+        pool = list(self.side)
+        while changed:
+            changed = False
+            rest = []
+            for c in pool:
+                key = c.get_id()
+                if key not in self._side_vars:
+                    self._side_vars[key] = _consts_of(c)
+                if self._side_vars[key] & need:
+                    chosen.append(c)
+                    need |= self._side_vars[key]
+                    changed = True
+                else:
+                    rest.append(c)
+            pool = rest
+        return chosen
+
+    def solver(self, logic=None, timeout_ms=60000, focus=None):
         s = z3.SolverFor(logic) if logic else z3.Solver()
         s.set("timeout", timeout_ms)
         s.add(*self.assumptions)
+        if focus is not None:
+            s.add(*self.relevant_side(list(focus) + list(self.assumptions) + self.path_condition()))
+            ax = self.uf_axioms()
+            if ax:
+                s.add(*ax)
+            return s
         s.add(*self.side)
         ax = self.uf_axioms()
         if ax:
@@ -963,6 +995,25 @@ def unique_argmax(values):
         if r != z3.unsat:
             return None
     return best
+
+
+_CONSTS_MEMO = {}
+
+
+def _consts_of(f):
+    """ids of the uninterpreted constants occurring in a z3 term"""
+    out, stack, seen = set(), [f], set()
+    while stack:
+        t = stack.pop()
+        i = t.get_id()
+        if i in seen:
+            continue
+        seen.add(i)
+        if z3.is_const(t) and t.decl().kind() == z3.Z3_OP_UNINTERPRETED:
+            out.add(i)
+        else:
+            stack.extend(t.children())
+    return out
 
 
 def _q(v):
